@@ -278,11 +278,25 @@ func (x *Exec) packVariadic(sig *types.Signature, call *ast.CallExpr, args []*Va
 		oos("variadic parameter of unsupported type %s", vt)
 	}
 	acc := SeqEmpty(s)
-	for _, a := range args[np-1:] {
+	proto := ""
+	for i, a := range args[np-1:] {
 		acc = SeqPush(acc, x.coerce(st, a, vt.(*types.Slice).Elem()).T)
+		// channels packed into a variadic parameter: the slice carries a protocol when every element carries it
+		switch {
+		case a == nil || !strings.HasPrefix(a.Proto, "chan.") || len(a.Subj) > 0:
+			proto = "-"
+		case i == 0:
+			proto = a.Proto
+		case proto != a.Proto:
+			proto = "-"
+		}
 	}
 	out := append([]*Val(nil), args[:np-1]...)
-	return append(out, &Val{T: acc, Ty: vt})
+	pv := &Val{T: acc, Ty: vt}
+	if strings.HasPrefix(proto, "chan.") {
+		pv.Proto = "chans." + strings.TrimPrefix(proto, "chan.")
+	}
+	return append(out, pv)
 }
 
 // callFunc calls a statically known function or method.
@@ -422,7 +436,15 @@ func (x *Exec) implementers(iface *types.Interface, method string, pkg *types.Pa
 					// accept if all interface methods exist by name
 					all := true
 					for i := 0; i < iface.NumMethods(); i++ {
-						if o2, _, _ := types.LookupFieldOrMethod(types.NewPointer(n), true, p.Types, iface.Method(i).Name()); o2 == nil {
+						o2, _, _ := types.LookupFieldOrMethod(types.NewPointer(n), true, p.Types, iface.Method(i).Name())
+						f2, isFn := o2.(*types.Func)
+						if !isFn {
+							all = false
+							continue
+						}
+						// same number of parameters and results (the types may mention the type parameter)
+						s1, s2 := iface.Method(i).Type().(*types.Signature), f2.Type().(*types.Signature)
+						if s1.Params().Len() != s2.Params().Len() || s1.Results().Len() != s2.Results().Len() || s1.Variadic() != s2.Variadic() {
 							all = false
 						}
 					}
@@ -628,6 +650,12 @@ func (x *Exec) inlineLit(fv *FnVal, args []*Val, call *ast.CallExpr, st *St, fr 
 	}
 	sig := owner.info.TypeOf(fv.Lit).(*types.Signature)
 	nf := &Frame{id: x.newFrameID(), fi: owner.fi, info: owner.info, depth: fr.depth + 1, parent: owner, inlined: true}
+	if ord, ok := owner.fi.Lits[fv.Lit]; ok {
+		// the literal's own numbering of loops and nested literals (F#n#k), as when it is verified as a unit
+		if cfi := x.W.closureInfo(fmt.Sprintf("%s#%d", owner.fi.Key, ord)); cfi != nil && cfi.Lit == fv.Lit {
+			nf.fi = cfi
+		}
+	}
 	x.bindParams(nf, fv.Lit.Type, sig, x.packVariadic(sig, call, args, st), st)
 	st.note("inline closure (call at %s)", x.W.pos(call.Pos()))
 	x.runBody(nf, fv.Lit.Type, sig, fv.Lit.Body, st, k)
@@ -801,6 +829,11 @@ func (x *Exec) fieldKeysUnder(ty types.Type, path string, loc *Term) []modTarget
 }
 
 func (x *Exec) callContract(call *ast.CallExpr, c *Contract, obj *types.Func, fi *FuncInfo, recv *Val, args []*Val, st *St, fr *Frame, k kval) {
+	if x.pure && x.heapVars != nil {
+		// the body of a spec function is turned into a definitional axiom: the result of a call by contract would be
+		// a constant that does not depend on the arguments
+		oos("spec function %s calls %s by contract", x.Fn.Key, c.Key)
+	}
 	sig := obj.Type().(*types.Signature)
 	recvName, pnames := x.paramNames(c, obj, fi)
 	names := map[string]*Val{}
